@@ -1,6 +1,7 @@
 import PeliteModel.Lemmas.ExecFrame
 import PeliteModel.Lemmas.ParseShape
 import PeliteModel.Lemmas.PatternSem
+import PeliteModel.Lemmas.PatternSemFootprint
 import PeliteModel.Thm.C11Parse
 /-!
 C11 — three additions to `Thm/C11.lean` / `Thm/C11Parse.lean`, all WITHOUT the fragment restriction of T2:
@@ -15,7 +16,12 @@ C11 — three additions to `Thm/C11.lean` / `Thm/C11Parse.lean`, all WITHOUT the
   parser can emit; `C11_parse_slot0_only_first`: only the leading `Save(0)` mentions slot 0;
 * **sanity of the reference semantics** for the clause "rejects a layout that differs in any byte the
   pattern constrains": exact bytes and quoted text constrain the image byte for byte, wild cards and
-  fixed skips constrain nothing, a brace group continues at the byte after the jump operand.
+  fixed skips constrain nothing, a brace group continues at the byte after the jump operand;
+* **the perturbation clause over the semantics T2' uses** (`denoteImpl`, section (6)): `C11_impl_footprint` — the
+  verdict, final cursor and captures depend on the image only through the questions `footprint S p c` lists;
+  `C11_impl_constrained_byte` / `C11_impl_rejects_differing_byte` / `C11_impl_perturbed_rejected` — every literal
+  byte is compared (is in the footprint), holds on every accepted layout, and a layout that differs in it is
+  rejected; `C11_impl_constrained_complete` — for straight-line patterns these are ALL literal bytes.
 -/
 namespace Pelite.PatSem
 open Pelite.Pattern Pelite.Exec
@@ -254,6 +260,104 @@ example :
     -- `e8 ${ aa } bb`: the body is matched at the call target 7, `bb` at 5 = behind the operand
     (sem (ofRaw .pe32 #[0xe8, 2, 0, 0, 0, 0xbb, 0, 0xaa]) 1 [.byte 0xe8, .group .j4 [] [.byte 0xaa], .byte 0xbb] 0).map (·.1)
       = some 6 := by
+  decide +kernel
+
+/-! ## (6) the perturbation clause for the semantics the unconditional T2' uses (`semI` / `denoteImpl`)
+
+`footprint S p c` (`Spec/PatternSemImpl.lean`) lists the questions `denoteImpl S p c` asks the image: literal
+comparisons `lit a`, operand reads `read w a`, pointer translations, slice lengths — on the accepting path and on
+every failed candidate / alternative.  `constrained S p c` lists the literal bytes (address, value) the pattern
+demands, jump destinations taken from the image. -/
+
+/-- **Footprint theorem.**  The answer of `denoteImpl` — verdict, final cursor, captures — depends on the image only
+through the answers to the questions of its footprint: an image `S'` of the same format that answers them as `S`
+does gets the same answer, whatever else it contains.  Every pattern tree (any nesting, `[a-b]`, alternatives),
+every cursor. -/
+theorem C11_impl_footprint (S S' : ScanI) (hf : S'.fmt = S.fmt) (p : Pat) (c : Nat)
+    (h : ∀ q ∈ footprint S p c, q.same S S') : denoteImpl S' p c = denoteImpl S p c :=
+  denoteImpl_footprint hf p c h
+
+/-- the same for a sequence in the middle of a pattern, against any continuation -/
+theorem C11_semI_footprint (S S' : ScanI) (hf : S'.fmt = S.fmt) (items : List Item) (k c : Nat) (κ κ' : Kont)
+    (φ : Nat → List Query) (hκ : ∀ c1, (∀ q ∈ φ c1, q.same S S') → κ' c1 = κ c1)
+    (h : ∀ q ∈ fpI S k items c κ φ, q.same S S') : semI S' k items c κ' = semI S k items c κ :=
+  (semI_footprint_both hf).1 items k c κ κ' φ hκ h
+
+/-- instance: `e8 ${ "MZ" ( aa | [0-4] bb ) } 90 ?` on two buffers that differ in bytes the semantics never asks
+for: offset 6 is under the wild card, 7 lies between the call and its target, 14 / 15 behind the match.  The
+footprint lists the failed first alternative (`aa` at 10) and the failed first candidate of `[0-4]` (`bb` at 10)
+before the successful one (11), then `90` behind the call operand -/
+example :
+    let p : Pat := [.byte 0xe8, .group .j4 [] [.str [0x4d, 0x5a], .alt [[.byte 0xaa], [.range 0 4, .byte 0xbb]]], .byte 0x90, .any]
+    let S := ofRaw .pe32 #[0xe8, 3, 0, 0, 0, 0x90, 0x11, 0x22, 0x4d, 0x5a, 0x33, 0xbb, 0x44, 0x55, 0x66, 0x77]
+    let S' := ofRaw .pe32 #[0xe8, 3, 0, 0, 0, 0x90, 0x99, 0x23, 0x4d, 0x5a, 0x33, 0xbb, 0x44, 0x55, 0x00, 0x01]
+    footprint S p 0 = [.lit 0, .read 4 1, .lit 8, .lit 9, .lit 10, .slice 10, .lit 10, .lit 11, .lit 5] ∧
+    (∀ q ∈ footprint S p 0, q.same S S') ∧ denoteImpl S p 0 = some (7, [(0, 0)]) ∧ denoteImpl S' p 0 = some (7, [(0, 0)]) := by
+  decide +kernel
+
+/-- **Every byte the pattern constrains is compared and holds.**  On an accepted layout every literal byte of
+`constrained S p c` — exact bytes `hh` and the bytes of quoted text, at the addresses the layout's own jump
+operands lead to — has the value the pattern demands, and its comparison is part of the footprint. -/
+theorem C11_impl_constrained_byte (S : ScanI) (p : Pat) (c : Nat) (x : Nat × Caps) (h : denoteImpl S p c = some x) :
+    ∀ a v, (a, v) ∈ constrained S p c → S.read 1 a = some v ∧ Query.lit a ∈ footprint S p c := by
+  intro a v hm
+  simp only [denoteImpl, Option.map_eq_some_iff] at h
+  obtain ⟨y, hy, _⟩ := h
+  exact ⟨consI_holds S _ 1 c Kont.done y hy a v hm, consI_fp S _ 1 c Kont.done _ a v hm⟩
+
+/-- **… and a layout that differs in a byte the pattern constrains is rejected** (contrapositive) -/
+theorem C11_impl_rejects_differing_byte (S : ScanI) (p : Pat) (c : Nat) (a v : Nat) (hm : (a, v) ∈ constrained S p c)
+    (hne : S.read 1 a ≠ some v) : denoteImpl S p c = none := by
+  cases h : denoteImpl S p c with
+  | none => rfl
+  | some x => exact absurd (C11_impl_constrained_byte S p c x h a v hm).1 hne
+
+/-- **Perturbation, two images.**  Let `(a, v)` be a byte the pattern constrains on `S` at `c`.  An image `S'` of the
+same format that answers the comparison at `a` with anything but `v`, and every OTHER question of the footprint as
+`S` does (operand reads and slice lengths included: the perturbed byte is not also a jump operand), is rejected —
+whether or not `S` itself is accepted. -/
+theorem C11_impl_perturbed_rejected (S S' : ScanI) (hf : S'.fmt = S.fmt) (p : Pat) (c : Nat) (a v : Nat)
+    (hm : (a, v) ∈ constrained S p c) (hagree : ∀ q ∈ footprint S p c, q ≠ Query.lit a → q.same S S')
+    (hne : S'.read 1 a ≠ some v) : denoteImpl S' p c = none := by
+  rw [denoteImpl, consI_perturbed hf hne _ 1 c Kont.done Kont.done (fun _ => []) hm hagree]; rfl
+
+/-- **For straight-line patterns the constrained bytes are ALL literal bytes**: a pattern without `[a-b]` and
+`( | )` (brace groups, jumps, reads, wild cards, alignment allowed) that accepts a layout constrains exactly as many
+bytes as it has literal bytes, at any depth — so by the three theorems above it "rejects a layout that differs in
+any byte the pattern constrains".  (With `[a-b]` / `( | )` the list stops at the first of them in each sequence:
+which bytes are constrained behind it depends on the candidate / alternative taken.) -/
+theorem C11_impl_constrained_complete (S : ScanI) (p : Pat) (hst : straight p = true) (c : Nat) (x : Nat × Caps)
+    (h : denoteImpl S p c = some x) : (constrained S p c).length = litCount p := by
+  simp only [denoteImpl, Option.map_eq_some_iff] at h
+  obtain ⟨y, hy, _⟩ := h
+  rw [constrained]
+  rw [dropTrailing_straight p true hst] at hy ⊢
+  exact consI_length S p 1 c Kont.done y hst hy
+
+/-- instance (PE32+ pointer width, an absolute pointer): `68 *{ "MZ" aa } 90 ' u1` on `68 <ptr 16> 90 77 … 4d 5a aa`.
+The five literal bytes are constrained at 0, 16, 17, 18 (behind the pointer) and 9; each perturbed buffer is
+rejected; perturbing the wild-card-free rest (the byte `u1` reads) changes only the capture. -/
+example :
+    let p : Pat := [.byte 0x68, .group .ptr [] [.str [0x4d, 0x5a], .byte 0xaa], .byte 0x90, .save, .readU 1]
+    let S := ofRaw .pe64 #[0x68, 16, 0, 0, 0, 0, 0, 0, 0, 0x90, 0x77, 0, 0, 0, 0, 0, 0x4d, 0x5a, 0xaa]
+    straight p = true ∧ litCount p = 5 ∧
+    constrained S p 0 = [(0, 0x68), (16, 0x4d), (17, 0x5a), (18, 0xaa), (9, 0x90)] ∧
+    denoteImpl S p 0 = some (11, [(2, 0x77), (1, 10), (0, 0)]) ∧
+    denoteImpl (ofRaw .pe64 #[0x68, 16, 0, 0, 0, 0, 0, 0, 0, 0x90, 0x77, 0, 0, 0, 0, 0, 0x4d, 0x5b, 0xaa]) p 0 = none ∧
+    denoteImpl (ofRaw .pe64 #[0x68, 16, 0, 0, 0, 0, 0, 0, 0, 0x91, 0x77, 0, 0, 0, 0, 0, 0x4d, 0x5a, 0xaa]) p 0 = none ∧
+    denoteImpl (ofRaw .pe64 #[0x69, 16, 0, 0, 0, 0, 0, 0, 0, 0x90, 0x77, 0, 0, 0, 0, 0, 0x4d, 0x5a, 0xaa]) p 0 = none ∧
+    denoteImpl (ofRaw .pe64 #[0x68, 16, 0, 0, 0, 0, 0, 0, 0, 0x90, 0x78, 0, 0, 0, 0, 0, 0x4d, 0x5a, 0xaa]) p 0
+      = some (11, [(2, 0x78), (1, 10), (0, 0)]) :=
+  ⟨by decide +kernel, by decide +kernel, by decide +kernel, by decide +kernel, by decide +kernel, by decide +kernel,
+   by decide +kernel, by decide +kernel⟩
+
+/-- the hypotheses of `C11_impl_perturbed_rejected` on that layout: the buffer with offset 17 changed answers every
+question of the footprint but `lit 17` as the original does -/
+example :
+    let p : Pat := [.byte 0x68, .group .ptr [] [.str [0x4d, 0x5a], .byte 0xaa], .byte 0x90, .save, .readU 1]
+    let S := ofRaw .pe64 #[0x68, 16, 0, 0, 0, 0, 0, 0, 0, 0x90, 0x77, 0, 0, 0, 0, 0, 0x4d, 0x5a, 0xaa]
+    let S' := ofRaw .pe64 #[0x68, 16, 0, 0, 0, 0, 0, 0, 0, 0x90, 0x77, 0, 0, 0, 0, 0, 0x4d, 0x5b, 0xaa]
+    (17, 0x5a) ∈ constrained S p 0 ∧ (∀ q ∈ footprint S p 0, q ≠ Query.lit 17 → q.same S S') ∧ S'.read 1 17 ≠ some 0x5a := by
   decide +kernel
 
 end Pelite.PatSem
